@@ -78,8 +78,7 @@ Inductive otree :=
 
 Definition ptr := list nat.
 
-(* EPanic: the Go code dereferences a nil pointer or slices out of range *)
-Inductive err := EDup | ERedeclArrayAsTable | ERedeclAsArray | EPanic.
+Inductive err := EDup | ERedeclArrayAsTable | ERedeclAsArray.
 Inductive result (A : Type) := Ok (a : A) | Err (e : err).
 Arguments Ok {A} a. Arguments Err {A} e.
 
@@ -193,21 +192,23 @@ Fixpoint longest_prefix (k : rkey) (l : list oarr) (i : nat) (best : option (nat
     then longest_prefix k r (S i) (Some (i, a)) else longest_prefix k r (S i) best
   end.
 
-(* What the pointer returned by findArrayPrefix shows.  It points into the
-   slice openTableArrays (&d.openTableArrays[i]).  On an exact match
-   slices.DeleteFunc then removes the arrays below the key from that very
-   slice: the survivors move to the front and the vacated slots are zeroed, so
-   the pointer shows whatever is in slot i afterwards - the matched array when
-   nothing in front of it was removed, another array or a zero entry otherwise. *)
-Inductive found := FNone | FSome (i : nat) (a : oarr) | FZero.
+(* What findArrayPrefix returns: no array, or the array at index i of the
+   (possibly pruned) slice openTableArrays.  On an exact match the arrays below
+   the key are removed with slices.DeleteFunc, which moves the elements of the
+   slice, and the matched array is then looked up again (findArray), so the
+   result always is the array with that key. *)
+Inductive found := FNone | FSome (i : nat) (a : oarr).
 
 (* findArrayPrefix: on an exact match the arrays and the seen keys below it are forgotten *)
 Definition find_array_prefix (k : rkey) (arrays : list oarr) (seen : list rkey)
   : found * list oarr * list rkey :=
   match find_array_idx k arrays O with
-  | Some i =>
+  | Some _ =>
     let arrays2 := filter (fun b => negb (proper_prefix k (oa_key b))) arrays in
-    (match nth_error arrays2 i with Some a => FSome i a | None => FZero end,
+    (match find_array_idx k arrays2 O with
+     | Some j => match nth_error arrays2 j with Some a => FSome j a | None => FNone end
+     | None => FNone
+     end,
      arrays2,
      filter (fun s => negb (proper_prefix k s)) seen)
   | None =>
@@ -292,13 +293,10 @@ Definition step (s : state) (e : event) : result state :=
     match find_array_prefix key (st_arrays s) seen1 with
     | (FSome _ a, arrays2, seen2) =>
       if rkey_eqb (oa_key a) key then Err ERedeclArrayAsTable else
-      (* keyElems[array.level:] and tkeys[0] of inlineFields *)
-      if Nat.leb (length p) (oa_level a) then Err EPanic else
       let sub := skipn (oa_level a) p in
       let w := width (oa_last a) (st_out s) in
       Ok (mkState (append_field (oa_last a) (chain sub (OStruct [])) (st_out s))
                   seen2 arrays2 key (Some (chain_leaf_ptr (oa_last a) w (length sub))))
-    | (FZero, _, _) => Err EPanic      (* array.lastTable is nil *)
     | (FNone, arrays2, seen2) =>
       let w := width [] (st_out s) in
       Ok (mkState (append_field [] (chain p (OStruct [])) (st_out s))
@@ -315,7 +313,6 @@ Definition step (s : state) (e : event) : result state :=
         let cur := oa_list a ++ [n] in
         Ok (mkState (append_elem (oa_list a) (OStruct []) (st_out s))
                     seen2 (update_arr i cur arrays2) (key ++ [SIdx n]) (Some cur))
-      else if Nat.ltb (length p) (oa_level a) then Err EPanic
       else
         (* [[last_array.new_array]] *)
         let sub := skipn (oa_level a) p in
@@ -324,7 +321,6 @@ Definition step (s : state) (e : event) : result state :=
         Ok (mkState (append_field (oa_last a) (chain sub (OList [OStruct []])) (st_out s))
                     seen2 (arrays2 ++ [mkArr key (length p) lp (lp ++ [O])])
                     (key ++ [SIdx O]) (Some (lp ++ [O])))
-    | (FZero, _, _) => Err EPanic      (* array.lastTable is nil *)
     | (FNone, arrays2, seen2) =>
       let w := width [] (st_out s) in
       let lp := chain_leaf_ptr [] w (length p) in
